@@ -17,7 +17,8 @@ def _enter_session():
 def _exit_session(exception):
     session = getattr(request, 'pony_session', None)
     if session is not None:
-        session.__exit__(exc=exception)
+        exc_type = type(exception) if exception is not None else None
+        session.__exit__(exc_type, exception)
 
 class Pony(object):
     def __init__(self, app=None):
